@@ -206,7 +206,11 @@ def run(ctx, rep):
                 collected.add(n.func.value.id)
     cons_o = construct_of(ms, "operand-order")
     reorder = None
+    # a set()/sorted() that is only measured (`len(set(qind))`, a test for duplicates) re-orders nothing that is used
+    only_measured = {id(a) for c in walk_no_nested(ms.node) if isinstance(c, ast.Call) and isinstance(c.func, ast.Name) and c.func.id == "len" for a in c.args}
     for n in walk_no_nested(ms.node):
+        if id(n) in only_measured:
+            continue
         if isinstance(n, ast.Call) and isinstance(n.func, ast.Attribute) and n.func.attr in ("sort", "reverse") and isinstance(n.func.value, ast.Name) and n.func.value.id in collected:
             reorder = n
         if isinstance(n, ast.Call) and isinstance(n.func, ast.Name) and n.func.id in ("sorted", "reversed", "set", "frozenset") and n.args and isinstance(n.args[0], ast.Name) and n.args[0].id in collected:
